@@ -12,10 +12,10 @@ from mc.ref.deps import RefDeps
 from mc.run import Stats, explore
 
 ASSUME = [
-    "rewrites: consistent renaming (3 adversarial name sets), relative <-> absolute dependency path per edge, depends <-> precedes per gap-free on-end edge, "
+    "rewrites: consistent renaming (3 adversarial name sets), relative <-> absolute dependency path per edge, depends <-> precedes per edge (options carried over), "
     "shift reference <-> inline hours per resource, comment / blank-line insertion at every token boundary (#, //, /* */ incl. comments containing braces and quotes), "
     "extraction of each attribute line into a macro (plain, and with ${1} argument where the line has a value)",
-    "bases: nested task trees of the C04 shapes with 1-3 edges (container-level and leaf-level), gaps, ASAP and ALAP, plus a two-resource base with a shift, leaves and limits",
+    "bases: nested task trees of the C04 shapes with 1-3 edges (container-level and leaf-level), gaps, ASAP and ALAP, plus a two-resource base with a shift, leaves and limits and a base whose calendars sit on resource groups",
     "token boundaries are those of the grammar's terminals (numbers with unit suffix, dates, times, '!'-references and strings are single tokens)",
 ]
 TOK = re.compile(r'"[^"\n]*"|\$\{[^}]*\}|\d{4}-\d{2}-\d{2}(?:-\d{2}:\d{2})?|\d{1,2}:\d{2}|\+?\d+(?:\.\d+)?[a-z]*|[!A-Za-z_][A-Za-z0-9_.!:]*|\S')
@@ -56,6 +56,13 @@ def bases(tier):
                      {"id": "c", "effort": 90, "alloc": ["r1", "r2"], "deps": [{"ref": "b", "gap": "2h"}], "limits": {"dailymax": "2h"}},
                      {"id": "m", "milestone": True, "deps": ["c"]}]}
     out.append(two)
+    # calendars given on resource GROUPS (shift reference on one, inline hours on the other); the members are allocated
+    grp = {"shifts": [{"id": "s1", "hours": [("mon - thu", ["6:00 - 12:00"])]}],
+           "resources": [{"id": "ga", "shift": "s1", "children": [{"id": "r1"}, {"id": "r2", "eff": 0.7}]},
+                         {"id": "gb", "hours": [("tue - sat", ["10:00 - 18:00"])], "children": [{"id": "r3"}]}],
+           "tasks": [{"id": "a", "effort": 300, "alloc": ["r1"]}, {"id": "b", "effort": 200, "alloc": ["r2"], "deps": ["a"]},
+                     {"id": "c", "effort": 400, "alloc": ["r3"], "deps": [{"ref": "a", "gap": "1d"}]}, {"id": "m", "milestone": True, "deps": ["b", "c"]}]}
+    out.append(grp)
     return out
 
 
@@ -138,13 +145,15 @@ def rewrites_spec(spec):
                 else:
                     t2[key][i]["ref"] = alt
                 yield f"refspelling {fid}:{r}->{alt}", s2, {}
-                if key == "deps" and (isinstance(d, str) or not (d.get("gap") or d.get("onstart"))):
+                if key == "deps":
+                    # 'x depends t { options }'  <->  't precedes x { options }'
                     s3 = copy.deepcopy(spec)
                     t3 = find(s3["tasks"], fid)
                     t3["deps"].pop(i)
                     if not t3["deps"]:
                         del t3["deps"]
-                    find(s3["tasks"], target).setdefault("prec", []).append(fid)
+                    opts = {k: v for k, v in d.items() if k in ("gap", "onstart") and v} if isinstance(d, dict) else {}
+                    find(s3["tasks"], target).setdefault("prec", []).append({"ref": fid, **opts} if opts else fid)
                     yield f"precedes {target}->{fid}", s3, {}
     # shift reference <-> inline hours
     for full, r, _p in render.walk_resources(spec.get("resources")):
@@ -274,7 +283,7 @@ def universe(tier):
         yield {"bi": bi, "kind": "orig"}
         for name, _s2, _m in rewrites_spec(spec):
             yield {"bi": bi, "kind": "spec", "name": name}
-        for name, _t in text_rewrites(text, tier, dense=(bi in (1, len(bs) - 1) or tier == "thorough")):
+        for name, _t in text_rewrites(text, tier, dense=(bi in (1, len(bs) - 2, len(bs) - 1) or tier == "thorough")):
             yield {"bi": bi, "kind": "text", "name": name}
 
 
